@@ -613,6 +613,13 @@ func compatibleRows(r, nr table.Row) bool {
 			}
 			continue
 		}
+		if c.P != nil && nc.P != nil {
+			// The same predicate may carry its anchor written in another time zone.
+			if c.P.UUID().String() != nc.P.UUID().String() {
+				return false
+			}
+			continue
+		}
 		if !reflect.DeepEqual(c, nc) {
 			return false
 		}
